@@ -90,6 +90,7 @@ FEATURES = {
     "no-END-no-newline": {"end": "none"},
     "END-no-newline": {"end": "END"},
     "END-then-text": {"end": "END-trailer"},
+    "no-END-then-comment-with-equals": {"end": "none-comment"},     # the text ends with a comment that contains '='
     "dash-continuation-earlier": {"dash": True},
     "no-indent": {"indent": ""},
     "leading-blank-lines": {"lead": "\n\n"},
@@ -100,7 +101,7 @@ GROUPS = [("crlf", "ff-as-line-end", "vt-as-line-end", "cr-as-line-end"),
                                      "hash-comment-between", "hash-comment-with-equals-between", "hash-comment-trailing-with-equals"),
           ("blank-lines",), ("tight-equals", "equals-on-own-line", "equals-first-on-line", "ff-before-equals",
                              "vt-before-equals", "cr-before-equals"), ("value-on-next-line",),
-          ("no-END", "no-END-no-newline", "END-no-newline", "END-then-text"), ("dash-continuation-earlier",), ("no-indent",),
+          ("no-END", "no-END-no-newline", "END-no-newline", "END-then-text", "no-END-then-comment-with-equals"), ("dash-continuation-earlier",), ("no-indent",),
           ("leading-blank-lines",), ("multi-line-comment-earlier",)]
 
 
@@ -239,7 +240,7 @@ def build(stmts, removed, features):
                     followers.append("semicolon")
                 elif nxt is None:
                     followers.append({"END-nl": "END", "END": "END", "END-trailer": "END", "none": "end-of-text",
-                                      "none-nl": "end-of-text"}[st["end"]])
+                                      "none-nl": "end-of-text", "none-comment": "end-of-text"}[st["end"]])
                 elif nxt[0] == "assign":
                     followers.append("assignment-also-missing" if nxt[4] else "assignment")
                 elif nxt[0] == "begin":
@@ -262,6 +263,8 @@ def build(stmts, removed, features):
         tx.add(eol + "END" + eol + "ignored = " + eol + "more =" + eol)
     elif st["end"] == "none-nl":
         tx.add(eol)
+    elif st["end"] == "none-comment":
+        tx.add(eol + eol + "/* monty = python */" + eol)
     # expected tree
     k = [0]
 
